@@ -91,7 +91,8 @@ code the property is anchored in: {anchors}
 * Baseline test command: `bash /verif/tools/baseline.sh {wt}` prints `baseline: 410/410 stable tests pass; regressions: []` and
   exits 0 when the change keeps the pinned tests green.  (This script only runs pytest and compares with the pinned list; do not
   read anything else under /verif.)
-* No network.
+* No network.  Do NOT use `git stash` (the stash is shared by all worktrees of the repository and other people work in sibling
+  worktrees at the same time): save a change with `git diff > file`, remove it with `git checkout -- .`, re-apply with `git apply`.
 
 ## Deliverables (for each change k = 1, 2) in `{out}/m<k>/`
 
